@@ -229,6 +229,9 @@ def handle (op : String) (args : List String) : String :=
   | "dump", [t] => match (SExpr.parse t).bind Tree.ofSExpr with
     | some t => "ok\t" ++ (SExpr.str (dump t)).render
     | none => bad
+  | "selfDelim", [t] => match (SExpr.parse t).bind Tree.ofSExpr with
+    | some t => "ok\t" ++ (if selfDelimiting t then "true" else "false")
+    | none => bad
   | "asAst", [v] => match (SExpr.parse v).bind PyVal.ofSExpr with
     | some v => okE (asAst v)
     | none => bad
